@@ -24,6 +24,19 @@ Theorem C04_raised_was_raised :
 Proof. exact raised_was_raised. Qed.
 Print Assumptions C04_raised_was_raised.
 
+(* (1b) ... also on a pool that has failed before: whatever earlier calls left in the pool's stored-exception slots,
+   a call that starts its workers never raises it (the slots are reset by _start_workers: read off the source) *)
+Theorem C04_stale_errors_are_not_reraised :
+  forall stale scripts sched e,
+  fmn (frun (finit_stale stale scripts) sched) = FRaised e ->
+  match e with
+  | EUser x => exists w j, In (j, URaise x) (script scripts w)
+  | EDied w => exists j, In (j, UDie) (script scripts w)
+  | ETimeout w => exists j, In (j, UBlock true) (script scripts w)
+  end.
+Proof. intros stale scripts sched e. rewrite finit_stale_eq. apply raised_was_raised. Qed.
+Print Assumptions C04_stale_errors_are_not_reraised.
+
 (* (2) a failure is never swallowed: once a user function has failed, the call cannot return normally *)
 Theorem C04_failure_not_swallowed :
   forall scripts sched, flog (frun (finit scripts) sched) <> [] -> fmn (frun (finit scripts) sched) <> FDone.
